@@ -2022,6 +2022,38 @@ func (cs *ConditionsSet) StreamIDs(nextStreamID uint64) (bitmask.LongBitmask, bo
 	return res, true
 }
 
+// AtReferenceTime returns the conditions expressed against another reference time, cs itself is not modified
+func (cs ConditionsSet) AtReferenceTime(oldReferenceTime, newReferenceTime time.Time) ConditionsSet {
+	delta := newReferenceTime.Sub(oldReferenceTime)
+	if delta == 0 {
+		return cs
+	}
+	res := ConditionsSet(nil)
+	for i, ccs := range cs {
+		copied := false
+		for j, c := range ccs {
+			tc, ok := c.(*TimeCondition)
+			if !ok || tc.ReferenceTimeFactor == 0 {
+				continue
+			}
+			if res == nil {
+				res = append(ConditionsSet(nil), cs...)
+			}
+			if !copied {
+				res[i] = append(Conditions(nil), ccs...)
+				copied = true
+			}
+			n := *tc
+			n.Duration += delta * time.Duration(tc.ReferenceTimeFactor)
+			res[i][j] = &n
+		}
+	}
+	if res == nil {
+		return cs
+	}
+	return res
+}
+
 func (cs *ConditionsSet) UpdateReferenceTime(oldReferenceTime, newReferenceTime time.Time) {
 	delta := oldReferenceTime.Sub(newReferenceTime)
 	if delta == 0 {
@@ -2159,6 +2191,9 @@ type (
 	TagDetails struct {
 		Matches, Uncertain bitmask.LongBitmask
 		Conditions         ConditionsSet
+		// ReferenceTime is the reference time the time filters of Conditions are expressed against,
+		// the zero time stands for the reference time of the query the tag is used in
+		ReferenceTime time.Time
 	}
 )
 
